@@ -224,6 +224,21 @@ func c09Run(c *core.Ctx) *core.Result {
 		}
 	}
 
+	// 3b. the single-entry stat constructor
+	for k := 0; k < 3 && len(snap.Entries) > 0; k++ {
+		e := core.Pick(c.R, snap.Entries)
+		st, err := fsutil.Stat(filepath.Join(src, e.Path))
+		if err != nil {
+			r.Violate("walk-error", "fsutil.Stat(%q) failed: %v", e.Path, err)
+			continue
+		}
+		w := e.Clone()
+		w.Path = tree.Base(e.Path)
+		w.LinkTo = ""
+		c09Compare(r, "Stat("+e.Path+")", []tree.Entry{w}, []*types.Stat{st}, "")
+		r.Count("single_stats_compared", 1)
+	}
+
 	// 4. SubDirFS
 	names := []string{"sub", "a-b", "zz"}
 	core.Shuffle(c.R, names)
